@@ -9,7 +9,8 @@
 using namespace ace_time;
 using namespace verif;
 
-static const int64_t T_END = 1577923200LL;  // 2050-01-01T00:00:00Z in AceTime epoch seconds
+static int64_t T_BEGIN = 0;
+static int64_t T_END = 1577923200LL;  // 2050-01-01T00:00:00Z in AceTime epoch seconds
 static std::string g_pid = "c01";
 
 template <class Db, bool CROSS>
@@ -78,6 +79,13 @@ struct Sweeper {
       if (t >= fnext) { fields(t, oz.e[idx]); fnext += fstep; }
     }
   }
+  // every minute within +-win seconds of each oracle breakpoint (used with a coarse grid)
+  void windows(int64_t c0, int64_t c1, int64_t win) {
+    for (size_t k = 1; k < oz.e.size(); k++) {
+      int64_t b = oz.e[k].start; if (b < c0 || b >= c1) continue;
+      for (int64_t t = std::max(T_BEGIN, b - win - b % 60); t <= b + win && t < T_END; t += 60) check(t, oz.e[oz.at(t)]);
+    }
+  }
   // second-level probes around oracle breakpoints and year boundaries in [c0,c1)
   void probes(int64_t c0, int64_t c1, uint64_t& bp_total, uint64_t& bp_ok) {
     for (size_t k = 1; k < oz.e.size(); k++) {
@@ -85,7 +93,7 @@ struct Sweeper {
       if (b < c0 || b >= c1) continue;
       bool ok = true;
       for (int d = -2; d <= 2; d++) {
-        int64_t t = b + d; if (t < 0 || t >= T_END) continue;
+        int64_t t = b + d; if (t < T_BEGIN || t >= T_END) continue;
         const OEnt& e = oz.e[oz.at(t)];
         ok &= check(t, e); fields(t, e);
       }
@@ -98,7 +106,7 @@ struct Sweeper {
       for (int64_t base : {b, b + 86400}) {
         if (base < c0 || base > c1) continue;
         for (int d = -2; d <= 2; d++) {
-          int64_t t = base + d; if (t < 0 || t >= T_END) continue;
+          int64_t t = base + d; if (t < T_BEGIN || t >= T_END) continue;
           const OEnt& e = oz.e[oz.at(t)];
           check(t, e); fields(t, e);
         }
@@ -107,13 +115,23 @@ struct Sweeper {
   }
 };
 
+static void check_highwater(ExtendedZoneProcessor& p, const extended::ZoneInfo* info, const std::string& nm, const std::string& pid, uint64_t& maxhw) {
+  uint8_t hw = p.getTransitionHighWater(); if (hw > maxhw) maxhw = hw;
+  if (!(hw < info->transitionBufSize) || !(hw < 8)) violation(pid + ":transition-buffer-high-water:" + nm, fmt("{\"zone\":\"%s\",\"highWater\":%d,\"transitionBufSize\":%d}", nm.c_str(), hw, info->transitionBufSize));
+}
+static void check_highwater(BasicZoneProcessor& p, const basic::ZoneInfo*, const std::string& nm, const std::string& pid, uint64_t&) {
+  if (verif_dropped(p)) violation(pid + ":basic-cache-overflow:" + nm, fmt("{\"zone\":\"%s\",\"dropped\":%u}", nm.c_str(), verif_dropped(p)));
+}
+
 template <class Db, bool CROSS>
 int run(const Args& a) {
   Counters c;
   std::map<std::string, OZone> oracle = load_oracle(a.get("oracle"));
   const int K = a.thorough ? 10 : 2;  // time chunks per zone
   uint64_t bp_total = 0, bp_ok = 0, zones_done = 0, dropped = 0, missing = 0;
-  int64_t step = a.thorough ? 1 : 60;
+  int64_t step = a.getl("step", a.thorough ? 1 : 60);
+  int64_t win = a.getl("win", 0);
+  uint64_t maxhw = 0, hwviol = 0;
   std::string only = a.get("zone");
   for (uint16_t zi = 0; zi < Db::size(); zi++) {
     const typename Db::Info* info = Db::info(zi);
@@ -126,13 +144,15 @@ int run(const Args& a) {
     }
     for (int k = 0; k < K; k++) {
       if ((int)((zi * K + k + a.seed) % a.nshards) != a.shard) continue;
-      int64_t c0 = T_END / K * k, c1 = (k == K - 1) ? T_END : T_END / K * (k + 1);
+      int64_t c0 = T_BEGIN + (T_END - T_BEGIN) / K * k, c1 = (k == K - 1) ? T_END : T_BEGIN + (T_END - T_BEGIN) / K * (k + 1);
       c0 -= c0 % 60;
       c1 -= c1 % 60;
       Sweeper<Db, CROSS> s(info, it->second, c);
-      int64_t fstep = a.thorough ? 60 : 60 * 7;
-      s.sweep(c0, c1, step, fstep, a.thorough ? 0 : (int64_t)(a.seed % 7) * 60);
+      int64_t fstep = step >= 60 ? step * 7 : 60;
+      s.sweep(c0, c1, step, fstep, step >= 60 ? (int64_t)(a.seed % 7) * step : 0);
+      if (win) s.windows(c0, c1, win);
       s.probes(c0, c1, bp_total, bp_ok);
+      check_highwater(s.proc, info, nm, g_pid, maxhw);
       c.add("instants", s.n); c.add("field_checks", s.nf);
       if (k == 0) zones_done++;
       c.add("zone_chunks");
@@ -142,6 +162,7 @@ int run(const Args& a) {
   }
   c.add("zones", zones_done); c.add("breakpoints_probed", bp_total); c.add("breakpoints_confirmed", bp_ok);
   c.add("basic_dropped_transitions", dropped);
+  if (maxhw > c.c["max_high_water"]) c.c["max_high_water"] = maxhw;
   done(c);
   return 0;
 }
@@ -149,6 +170,13 @@ int run(const Args& a) {
 int main(int argc, char** argv) {
   Args a = parse_args(argc, argv);
   g_pid = a.get("pid", "c01");
+#ifdef VERIF_GEN_NS
+  if (a.get("db") == "gen") {
+    T_BEGIN = (civil::days_from_civil(GenDb::startYear(), 1, 1) - civil::kEpoch2000Days) * 86400;
+    T_END = (civil::days_from_civil(GenDb::untilYear(), 1, 1) - civil::kEpoch2000Days) * 86400;
+    return run<GenDb, false>(a);
+  }
+#endif
   if (a.get("db") == "zonedb") return run<BasicDb, true>(a);
   return run<ExtDb, false>(a);
 }
